@@ -5,7 +5,7 @@ LEVEL = 'proof'
 UNITS = [fsutil.scandir_unit('C03'), snapshot.worker_unit('C03'), snapshot.run_unit('C03'), snapshot.producer_unit('C03'), gc.delete_unit('C03'), gc.clean_unit('C03')] + local.units('C03') + loc.loc_units('C03')[2:3] + retry.requires_auth_units('C03')
 from specs import families as _families
 UNITS = _families.with_families('C03', UNITS)
-BOUNDED = [{'name': 'C03.e2e_crash', 'script': 'bounded/c03_crash.py', 'timeout': 900, 'bound': 'dying backend: the first n mutations of snapshot / delete / clean succeed, every later backend call fails for good, for every n up to the command\'s mutation count (<= 14); 3 files, chunks 8..64, concurrency 2 (thorough: 1 and 2, encrypted too); afterwards list, restore all visible snapshots, new snapshot, clean, chunk set == referenced; plus ONE operating-system call inside the local adapter failing for good during delete / clean (listing snapshots/, listing one of its sub-directories, removing the snapshot object: EMFILE / EPERM): every snapshot still listed afterwards restores exactly; a temporary file left by a kill inside an upload (next to other objects, and alone in a fresh directory of data/ and snapshots/), with orphans present: everything keeps working and clean succeeds'}]
+BOUNDED = [{'name': 'C03.stores', 'script': 'bounded/c13_stores.py', 'timeout': 900, 'bound': 'what a delete / an upload leaves behind on each store: the real S3-compatible, B2 and local adapters against in-memory services (B2 with version stacks and hide markers) over seeded histories of 14 operations, compared with a plain map (same stand-in as C13.stores)'}, {'name': 'C03.faults', 'script': 'bounded/c12_faults.py', 'timeout': 900, 'bound': 'a single backend call that fails for good (OSError, 5xx, 401 on every attempt incl. re-authentication) must SURFACE as an error of the adapter call and of the command - never be reported as done (same stand-in as C12.faults)'}, {'name': 'C03.e2e_crash', 'script': 'bounded/c03_crash.py', 'timeout': 900, 'bound': 'dying backend: the first n mutations of snapshot / delete / clean succeed, every later backend call fails for good, for every n up to the command\'s mutation count (<= 14); 3 files, chunks 8..64, concurrency 2 (thorough: 1 and 2, encrypted too); afterwards list, restore all visible snapshots, new snapshot, clean, chunk set == referenced; plus ONE operating-system call inside the local adapter failing for good during delete / clean (listing snapshots/, listing one of its sub-directories, removing the snapshot object: EMFILE / EPERM): every snapshot still listed afterwards restores exactly; a temporary file left by a kill inside an upload (next to other objects, and alone in a fresh directory of data/ and snapshots/), with orphans present: everything keeps working and clean succeeds'}]
 TRUSTED = [
     'vf symbolic executor (/verif/vf): encoding of the Python subset (DESIGN 2.2)',
     'z3 5.1 (API + z3-new CLI), cvc5 1.0.3 (strings)',
